@@ -83,12 +83,16 @@ type stackFactory struct {
 	ForwardAlive bool
 	Creates      []string
 	gate         chan struct{}
+	gateAddr     string // when set, the gate holds only the Create for this address
 }
 
 func (f *stackFactory) Create(address string) (types.Backend, error) {
 	f.mu.Lock()
 	f.Creates = append(f.Creates, address)
 	g := f.gate
+	if f.gateAddr != "" && f.gateAddr != address {
+		g = nil // only the named replica's connection is held
+	}
 	f.mu.Unlock()
 	if g != nil {
 		// held here by an "addrace" step: the controller has admitted the
@@ -104,6 +108,14 @@ func (f *stackFactory) Create(address string) (types.Backend, error) {
 func (f *stackFactory) setGate(g chan struct{}) {
 	f.mu.Lock()
 	f.gate = g
+	f.gateAddr = ""
+	f.mu.Unlock()
+}
+
+func (f *stackFactory) setGateFor(addr string, g chan struct{}) {
+	f.mu.Lock()
+	f.gate = g
+	f.gateAddr = addr
 	f.mu.Unlock()
 }
 
